@@ -69,7 +69,7 @@ pub fn hygiene(out: &str) -> Option<String> {
     }
     for (i, line) in out.split('\n').enumerate() {
         if let Some(c) = line.chars().last() {
-            if c.is_whitespace() && !syntax::is_nl(c) {
+            if c.is_whitespace() {
                 return Some(format!("line {} ends with blank U+{:04X}", i + 1, c as u32));
             }
         }
@@ -88,6 +88,6 @@ impl Oracle for C11 {
         })
     }
     fn rule(&self) -> String {
-        "every well-formed candidate (plus degenerate documents) x every configuration; each distinct output must be non-empty, end with LF and have no line ending in a blank (char::is_whitespace that is not a Typst line terminator)".into()
+        "every well-formed candidate (plus degenerate documents) x every configuration; each distinct output must be non-empty, end with LF and have no line (split at LF) ending in a blank (char::is_whitespace, which includes CR and the other Unicode line terminators: the output uses LF line ends only)".into()
     }
 }
